@@ -149,6 +149,9 @@ class Labware:
         if initial_volumes is None:
             initial_volumes = 0
         initial_volumes = np.array(initial_volumes)
+        if np.issubdtype(initial_volumes.dtype, np.floating):
+            # compare with the limits in double precision, whatever the precision of the argument
+            initial_volumes = initial_volumes.astype(float)
         if initial_volumes.shape == ():
             initial_volumes = np.full((rows, columns), initial_volumes)
         else:
